@@ -363,7 +363,31 @@ fn is_sub_multiset(small: &[(u64, u64)], big: &[(u64, u64)]) -> bool {
     true
 }
 
+/// the binary operations; everything except the four assigning operators only reads both sets
+/// (`binary_ro`), so it can also be run on a set paired with ITSELF (script line `self <op>`)
 fn binary_op<K: KeyT>(a: &mut Set<K>, b: &Set<K>, w: &[&str], chk: &mut Vec<String>) -> String {
+    match w[0] {
+        "or_assign" => {
+            *a |= b;
+            "unit".into()
+        }
+        "and_assign" => {
+            *a &= b;
+            "unit".into()
+        }
+        "xor_assign" => {
+            *a ^= b;
+            "unit".into()
+        }
+        "sub_assign" => {
+            *a -= b;
+            "unit".into()
+        }
+        _ => binary_ro(&*a, b, w, chk),
+    }
+}
+
+fn binary_ro<K: KeyT>(a: &Set<K>, b: &Set<K>, w: &[&str], chk: &mut Vec<String>) -> String {
     match w[0] {
         "union" => {
             let v = refs::<K>(a.union(b));
@@ -418,44 +442,28 @@ fn binary_op<K: KeyT>(a: &mut Set<K>, b: &Set<K>, w: &[&str], chk: &mut Vec<Stri
         }
         // operator forms: a fresh set; compared as a set
         "bitor" => {
-            let r: Set<K> = &*a | b;
+            let r: Set<K> = a | b;
             let mut s = String::from("set ");
             s.push_str(&list_text(&sorted_owned(&r))[5..]);
             s
         }
         "bitand" => {
-            let r: Set<K> = &*a & b;
+            let r: Set<K> = a & b;
             let mut s = String::from("set ");
             s.push_str(&list_text(&sorted_owned(&r))[5..]);
             s
         }
         "bitxor" => {
-            let r: Set<K> = &*a ^ b;
+            let r: Set<K> = a ^ b;
             let mut s = String::from("set ");
             s.push_str(&list_text(&sorted_owned(&r))[5..]);
             s
         }
         "sub" => {
-            let r: Set<K> = &*a - b;
+            let r: Set<K> = a - b;
             let mut s = String::from("set ");
             s.push_str(&list_text(&sorted_owned(&r))[5..]);
             s
-        }
-        "or_assign" => {
-            *a |= b;
-            "unit".into()
-        }
-        "and_assign" => {
-            *a &= b;
-            "unit".into()
-        }
-        "xor_assign" => {
-            *a ^= b;
-            "unit".into()
-        }
-        "sub_assign" => {
-            *a -= b;
-            "unit".into()
         }
         // ---------------- rayon (C19): parallel set algebra against the sequential one ----------------
         "spar_union" | "spar_intersection" | "spar_difference" | "spar_symmetric_difference" => {
@@ -558,6 +566,19 @@ pub fn run_set<K: KeyT>(lines: &[String], out: &mut String) {
             finish_step(out, r, &pre, &mut chk, tgt);
             let m = if tgt == "A" { &a } else { &b };
             let _ = writeln!(out, "POST {}", dump_set(m));
+        } else if w[0] == "self" {
+            // a set paired with itself (the same object on both sides): read-only operations only
+            let _ = writeln!(out, "STEP2 {} {}", step, w[1..].join(" "));
+            let _ = writeln!(out, "ARM {}", if arms.is_empty() { "-".to_string() } else { arms.join(" ; ") });
+            let _ = writeln!(out, "PREA {}", dump_set(&a));
+            let _ = writeln!(out, "PREB {}", dump_set(&a));
+            let pre = serials(&a);
+            let r = catch_unwind(AssertUnwindSafe(|| binary_ro(&a, &a, &w[1..], &mut chk)));
+            disarm();
+            arms.clear();
+            finish_step(out, r, &pre, &mut chk, "A");
+            let _ = writeln!(out, "POST {}", dump_set(&a));
+            let _ = writeln!(out, "POSTB {}", dump_set(&a));
         } else {
             let _ = writeln!(out, "STEP2 {} {}", step, line);
             let _ = writeln!(out, "ARM {}", if arms.is_empty() { "-".to_string() } else { arms.join(" ; ") });
